@@ -150,44 +150,72 @@ def ls_optimum(A, b, x0, m):
     return x, float(np.linalg.norm(b - A @ x)), K.shape[1]
 
 
+def overrun_columns(case):
+    """per column: does the (binary64 reference) Arnoldi loop take further steps after this column's own breakdown
+    (new vector below the clip tol/2) or convergence (norm <= tol*H[1,0])?  It does when max_iters allows it and
+    either the stopping test is blind (first step) or another column keeps the batched loop alive.  Input-only."""
+    B = case["B"]
+    X0 = case["X0"] if case["X0"] is not None else np.zeros_like(B)
+    try:
+        with np.errstate(all="ignore"):
+            ref = ref_gmres(case["A"], B, X0, case["m"], case["tol"], np.complex128 if case["cplx"] else np.float64, True, solve=False)
+        return ref["overrun"]
+    except Exception:
+        return [True] * B.shape[1]
+
+
 def oracle(case, obs, flags):
-    """property clauses on the implementation's output; returns (failed clauses, info)"""
+    """property clauses on the implementation's output; returns (failed clauses, info).
+    Regions spoiled by recorded defects (skipped while the corresponding flag is present):
+      gmres_square_H               truncated runs (Krylov space not exhausted): minimal-residual clauses
+      arnoldi_breakdown_continues  columns whose Krylov space is exhausted strictly before min(m, n) steps: the loop
+                                   goes on with clipped noise vectors; minimal-residual clauses, LinAlgError
+      arnoldi_padding              max_iters > n: LinAlgError from the padded normal equations"""
     bad, info = [], {}
-    if not obs.get("ok"):
-        return ["raised " + obs.get("err", "")], info
     A, B = case["A"], case["B"]
     n, nc = B.shape
+    m = case["m"]
+    early = overrun_columns(case)
+    if not obs.get("ok"):
+        err = obs.get("err", "")
+        if "LinAlgError" in err and ((flags.get("arnoldi_padding") and m > n) or (flags.get("arnoldi_breakdown_continues") and any(early))):
+            info["attributed_exception"] = 1
+            return [], info
+        return ["raised " + err], info
     X0 = case["X0"] if case["X0"] is not None else np.zeros_like(B)
-    X, m = obs["x"], case["m"]
+    X = obs["x"]
     if not obs["shape_ok"]:
         bad.append("shape of the solution")
     if obs["products"] > min(m, n) + 1:
         bad.append("%d products with A for max_iters=%d, n=%d (at most min(m,n)+1 expected)" % (obs["products"], m, n))
     if any(w != nc for w in obs["widths"]):
         bad.append("a product with A was not one batched application to all %d columns: widths %s" % (nc, obs["widths"]))
-    if not np.all(np.isfinite(X)):
-        bad.append("non-finite solution")
-        return bad, info
     tol = case["tol"]
     kap = case.get("kappa", 1.0)
     checked = 0
+    info["exhausted"] = 0
     for j in range(nc):
         b, x0 = B[:, j], X0[:, j]
         r0n = float(np.linalg.norm(b - A @ x0))
-        res = float(np.linalg.norm(b - A @ X[:, j]))
         xo, ro, dim = ls_optimum(A, b, x0, m)
-        slack = (1e-6 + 30 * tol * kap) * r0n + 1e-300     # rounding + the accuracy the user's tol asks of Arnoldi
         exhausted = ro <= 1e-9 * r0n
-        info.setdefault("exhausted", 0)
         info["exhausted"] += int(exhausted)
         if flags.get("gmres_square_H") and not exhausted:
-            continue          # truncated run: the recorded defect (Galerkin iterate) spoils the minimal-residual clauses
+            continue
+        if flags.get("arnoldi_breakdown_continues") and early[j]:
+            continue
         checked += 1
+        if not np.all(np.isfinite(X[:, j])):
+            bad.append("column %d: non-finite solution" % j)
+            continue
+        res = float(np.linalg.norm(b - A @ X[:, j]))
+        slack = (1e-6 + 30 * tol * kap) * r0n + 1e-300     # rounding + the accuracy the caller's tol asks of Arnoldi
         if res > ro * (1 + 1e-6) + slack:
             bad.append("column %d: residual %.6e exceeds the least-squares optimum %.6e over x0+K_%d (||r0||=%.3e)" % (j, res, ro, m, r0n))
         if res > r0n * (1 + 1e-9) + slack:
             bad.append("column %d: residual %.6e larger than the initial residual %.6e" % (j, res, r0n))
     info["minres_checked"] = checked
+    info["early_breakdown"] = int(any(early))
     return bad, info
 
 
@@ -212,7 +240,7 @@ def _ge_solve(G, b):
     return x
 
 
-def ref_gmres(A, B, X0, m, tol, dtype, square_H=True):
+def ref_gmres(A, B, X0, m, tol, dtype, square_H=True, solve=True):
     """Reference recurrence (Arnoldi with MGS and clip, normal equations with padding) in precision `dtype`; used
     ONLY to decide whether a case is numerically stable enough for a tolerance comparison."""
     A, B, X0 = A.astype(dtype), B.astype(dtype), X0.astype(dtype)
@@ -223,6 +251,8 @@ def ref_gmres(A, B, X0, m, tol, dtype, square_H=True):
     norm = np.sqrt(np.sum((R.conj() * R).real, axis=0))
     Q[:, :, 0] = (R / norm).T
     cap, idx, margins = min(m, n), 0, []
+    overrun = np.zeros(nc, dtype=bool)     # the loop went on after this column's own breakdown / convergence
+    done = np.zeros(nc, dtype=bool)
     while True:
         if idx >= cap:
             break
@@ -231,6 +261,8 @@ def ref_gmres(A, B, X0, m, tol, dtype, square_H=True):
             margins.append(float(np.min(np.abs(norm - ref_) / np.maximum(np.abs(ref_), 1e-300))))
             if not np.any(norm > ref_):
                 break
+            done = done | ~(norm > ref_)
+        overrun = overrun | done
         new = (A @ Q[:, :, idx].T).T.copy()
         h = np.zeros((nc, m + 1), dtype=dtype)
         for j in range(idx + 1):
@@ -238,11 +270,14 @@ def ref_gmres(A, B, X0, m, tol, dtype, square_H=True):
             new = new - h[:, [j]] * Q[:, :, j]
         norm = np.sqrt(np.sum((new.conj() * new).real, axis=-1))
         margins.append(float(np.min(np.abs(norm - tol / 2) / (tol / 2))))
+        done = done | (norm < tol / 2)
         new = new / np.maximum(norm[:, None], tol / 2.)
         h[:, idx + 1] = norm
         H[:, :, idx] = h
         Q[:, :, idx + 1] = new
         idx += 1
+    if not solve:
+        return dict(steps=idx, overrun=[bool(v) for v in overrun])
     Qm = Q[:, :, :-1]
     Hm = H[:, :-1, :] if square_H else H
     beta = np.sqrt(np.sum((R.conj() * R).real, axis=0))
@@ -257,7 +292,7 @@ def ref_gmres(A, B, X0, m, tol, dtype, square_H=True):
         y = _ge_solve(HT @ Hc + np.diag(pad.astype(dtype)), HT[:, 0].copy()) * beta[c]
         y = np.where(pad, 0, y)
         out[:, c] = X0[:, c] + Qm[c] @ y
-    return dict(x=out, steps=idx, min_margin=min(margins) if margins else 1.0)
+    return dict(x=out, steps=idx, min_margin=min(margins) if margins else 1.0, overrun=[bool(v) for v in overrun])
 
 
 def stability(case, square_H=True):
